@@ -222,7 +222,7 @@ fn gen_flags(rng: &mut Rng) -> Flags {
     let mut f = Flags::default();
     for _ in 0..rng.below(3) {
         match rng.below(13) {
-            12 => f.include = vec!["src".to_string(), "src-gen".to_string()],
+            12 => f.include = rng.pick(&[vec!["src", "src-gen"], vec!["src", "src/deep"], vec![".", "src"], vec!["src/deep", "src", "src"]]).iter().map(|s| (*s).to_string()).collect(),
             0 => f.max_lines = Some(*rng.pick(&[1usize, 4, 100])),
             1 => f.ext = Some(vec![(*rng.pick(&["rs", "py", "txt"])).to_string()]),
             2 => f.exclude.push((*rng.pick(&["src/deep/**", "**/*_test.rs", "scripts/**"])).to_string()),
@@ -264,6 +264,8 @@ fn base_depth_spec(pattern: &str) -> usize {
 struct RunOut {
     rc: i32,
     rows: BTreeMap<String, (String, u64)>, // "path:kind" -> (status, count)
+    /// results that appear more than once (same path, same kind of finding)
+    twice: Vec<String>,
     err: String,
 }
 
@@ -271,6 +273,7 @@ fn run_bin(bin: &str, dir: &Path, args: &[String]) -> RunOut {
     let o = Command::new(bin).args(["check", "--format", "json", "--no-sloc-cache"]).args(args).current_dir(dir).env("NO_COLOR", "1").output().expect("run");
     let err = String::from_utf8_lossy(&o.stderr).into_owned();
     let mut rows = BTreeMap::new();
+    let mut twice = vec![];
     if let Ok(v) = serde_json::from_slice::<serde_json::Value>(&o.stdout) {
         for e in v["results"].as_array().cloned().unwrap_or_default() {
             let mut p = e["path"].as_str().unwrap_or("").to_string();
@@ -286,10 +289,16 @@ fn run_bin(bin: &str, dir: &Path, args: &[String]) -> RunOut {
                 Some("dir_count") => "d",
                 Some(_) => "o",
             };
+            // (placement findings of one path can be several: keyed with their reason)
+            let key = if kind == "o" { format!("{}:{kind}:{}", enc(&p), e["violation_category"]["violation_type"]) } else { format!("{}:{kind}", enc(&p)) };
+            if rows.contains_key(&format!("{}:{kind}", enc(&p))) && kind != "o" {
+                twice.push(format!("{p} ({kind})"));
+            }
+            let _ = key;
             rows.insert(format!("{}:{kind}", enc(&p)), (e["status"].as_str().unwrap_or("").to_string(), e["sloc"].as_u64().unwrap_or(0)));
         }
     }
-    RunOut { rc: o.status.code().unwrap_or(-1), rows, err }
+    RunOut { rc: o.status.code().unwrap_or(-1), rows, twice, err }
 }
 
 fn one_case(sink: &mut Sink, rng: &mut Rng, bin: &str, scratch: &str) {
@@ -550,6 +559,9 @@ fn one_case(sink: &mut Sink, rng: &mut Rng, bin: &str, scratch: &str) {
     let mut problems = vec![];
     if out.err.contains("panicked") {
         problems.push("check panicked".to_string());
+    }
+    if !out.twice.is_empty() {
+        problems.push(format!("reported twice in one run: {}", out.twice.join(", ")));
     }
     let implementation = if out.rc == 2 {
         format!("config-error {}", out.err.lines().next().unwrap_or("").replace(' ', "_"))
